@@ -49,7 +49,8 @@ THEOREMS = [
     ('EAO.Properties.C13', 'EAO.C13.extendMinor_rows', 'the output is the concatenation of the rows written per coarse row, in order'),
 ]
 KNOWN_KINDS = {'both_misaligned': 'F-13f', 'coarse_remainder': 'F-19b',
-               'coarse_take_first_minor': 'F-13g', 'periodic_chp': 'F-13d (not generated)'}
+               'coarse_take_first_minor': 'F-13g', 'periodic_chp': 'F-13d (not generated)',
+               'anchored_period_lead': 'F-13m'}
 
 
 # ------------------------------------------------------------------ small helpers
@@ -81,24 +82,31 @@ FINE = {
 TYPES = ['SimpleContract', 'Contract', 'Transport', 'ExtendedTransport', 'Storage', 'MultiCommodityContract']
 
 
-def gen_case(rnd, oracle=None, kind=None, atype=None, dst=None, straddle=False):
+def gen_case(rnd, oracle=None, kind=None, atype=None, dst=None, straddle=False, steps=None, force=None):
+    """steps: number of grid steps (instead of the drawn one).  force: {'fine', 'opt', 'T', 'start', 'tz'} - grid and options
+    given by the caller (streams with their own way of drawing them); everything else (asset, parameters, markets) is drawn here."""
     fine = rnd.choice(['h', 'h', 'h', 'h', '30min', '15min', '2h', 'd'])
+    if force is not None:
+        fine, dst = force['fine'], False
     if dst is None:
         dst = rnd.random() < 0.08   # daily steps of 23/24/25 hours: fine steps of unequal length under a coarse frequency
     if dst:
         fine = 'd'
         kind = kind or rnd.choice(['freq', 'freq', 'both'])
-    tab = FINE[fine]
+    tab = FINE.get(fine)
     kind = kind or rnd.choice(['freq', 'freq', 'per', 'per', 'perdur', 'perdur', 'both', 'bothdur'])
     if oracle is None:
         oracle = rnd.random() < 0.35
     opt = {}
-    if kind in ('freq', 'both', 'bothdur'):
-        opt['freq'] = rnd.choice(tab['coarse'])
-    if kind in ('per', 'perdur', 'both', 'bothdur'):
-        opt['periodicity'] = rnd.choice(tab['per'])
-    if kind in ('perdur', 'bothdur'):
-        opt['periodicity_duration'] = rnd.choice(tab['dur'])
+    if force is not None:
+        opt = dict(force['opt'])
+    else:
+        if kind in ('freq', 'both', 'bothdur'):
+            opt['freq'] = rnd.choice(tab['coarse'])
+        if kind in ('per', 'perdur', 'both', 'bothdur'):
+            opt['periodicity'] = rnd.choice(tab['per'])
+        if kind in ('perdur', 'bothdur'):
+            opt['periodicity_duration'] = rnd.choice(tab['dur'])
     step = td(fine)
     # number of fine steps: mostly a common multiple of the lengths involved
     mults = [max(1, int(round(td(f) / step))) for f in opt.values()]
@@ -115,6 +123,8 @@ def gen_case(rnd, oracle=None, kind=None, atype=None, dst=None, straddle=False):
             T *= 2
     else:
         T = rnd.randint(3, tmax)
+    if steps is not None:
+        T = steps
     tz = None
     start = pd.Timestamp('2021-01-01') + rnd.choice([0, 0, 0, 6, 24]) * pd.Timedelta(hours=1)
     if rnd.random() < (0.5 if fine == 'd' else 0.2):
@@ -126,6 +136,8 @@ def gen_case(rnd, oracle=None, kind=None, atype=None, dst=None, straddle=False):
         start = pd.Timestamp(rnd.choice(['2021-03-26 00:00', '2021-03-27 00:00', '2021-10-29 00:00', '2021-10-30 00:00']))
     if fine == 'd':
         start = start.normalize()
+    if force is not None:
+        T, start, tz = force['T'], pd.Timestamp(force['start']), force['tz']
     end = start + T * step
     g = {'start': iso(start), 'end': iso(end), 'freq': fine, 'unit': 'h', 'tz': tz}
     try:
@@ -157,8 +169,8 @@ def gen_case(rnd, oracle=None, kind=None, atype=None, dst=None, straddle=False):
         if k_ == 0:
             if straddle:
                 return gen_case(rnd, oracle=oracle, kind=kind, atype=atype, dst=dst, straddle=True)
-            k_ = m0      # a whole coarse step before the horizon would raise (F-19b): leave the window alone
-        s_ = pd.Timestamp(tg.timepoints[0]).tz_localize(None) - (k_ % m0) * step
+            k_ = m0      # a whole coarse step before the horizon: skipped by the code since fix F-19g (it used to raise); or none
+        s_ = pd.Timestamp(tg.timepoints[0]).tz_localize(None) - (k_ if (k_ == m0 and rnd.random() < 0.5) else k_ % m0) * step
         try:
             if tz is not None:
                 s_.tz_localize(tz)
@@ -277,6 +289,158 @@ def gen_case(rnd, oracle=None, kind=None, atype=None, dst=None, straddle=False):
             'kind': kind, 'oracle': bool(oracle), 'aligned': aligned, 'uniform_dt': uniform, 'probe': probe}
 
 
+def gen_window_case(rnd, atype=None):
+    """coarse asset whose window [start, end) is a WHOLE number of coarse steps (no remainder: finding F-19b) and starts and/or ends
+    strictly inside the horizon - at any grid point, the coarse cuts run from the window's start -, together with a strongly varying
+    price / cost series of the asset: every step its own value plus a level per region (before the window, each coarse interval,
+    after the window), so that what lies outside the window differs clearly from what lies inside.  Always optimised (oracle case).
+    Equal fine steps (no DST), take periods cut at the asset's own coarse cuts or at the horizon's ends (finding F-13g)."""
+    fine = rnd.choice(['h', 'h', 'h', '30min', '15min', '2h', 'd'])
+    tab = FINE[fine]
+    freq = rnd.choice(tab['coarse'])
+    opt = {'freq': freq}
+    step = td(fine)
+    m0 = max(1, int(round(td(freq) / step)))
+    atype = atype or rnd.choice(TYPES)
+    tmax = 60
+    nmax = max(1, min(4, (tmax - 2) // m0))
+    nw = rnd.randint(min(nmax, 2 if atype == 'Storage' else 1), nmax)   # coarse steps in the window (one step leaves a storage no choice)
+    where = rnd.choice(['end', 'end', 'both', 'both', 'start'])      # which side(s) of the window lie strictly inside the horizon
+    room = max(2, tmax - nw * m0)
+
+    def outside():
+        k = rnd.randint(1, max(1, min(2 * m0, room // 2)))
+        if rnd.random() < 0.4 and m0 <= room // 2:
+            k = m0 * max(1, k // m0)                                 # whole coarse steps outside
+        return k
+    lead = outside() if where in ('start', 'both') else 0
+    tail = outside() if where in ('end', 'both') else 0
+    T = lead + nw * m0 + tail
+    tz = rnd.choice([None, None, None, 'UTC', 'CET'])                # January/February: no clock change
+    if freq == 'W':
+        wstart = pd.Timestamp('2021-01-10')                          # 'W' cuts on Sundays: the window starts on one
+    else:
+        wstart = pd.Timestamp('2021-01-04') + rnd.choice([0, 0, 0, 6, 24]) * pd.Timedelta(hours=1)
+        if fine == 'd':
+            wstart = wstart.normalize()
+    start = wstart - lead * step
+    g = {'start': iso(start), 'end': iso(start + T * step), 'freq': fine, 'unit': 'h', 'tz': tz}
+    tg = scen.make_grid(g)
+    assert tg.T == T, (tg.T, T)
+    pts = [start + i * step for i in range(T + 1)]
+    region = [0] * lead + [1 + k for k in range(nw) for _ in range(m0)] + [nw + 1] * tail
+    prices = {}
+
+    def pkey(name, lo, hi, levels, out_levels=None):
+        lv = [rnd.choice(out_levels or levels)] + [rnd.choice(levels) for _ in range(nw)] + [rnd.choice(out_levels or levels)]
+        prices[name] = [lv[region[t]] + q8(rnd, lo, hi) for t in range(T)]
+        return name
+
+    args = {}
+    if lead:
+        args['start'] = {'$dt': iso(pts[lead])}
+    if tail:
+        args['end'] = {'$dt': iso(pts[lead + nw * m0])}
+    nodes = ['n1']
+    two_var = rnd.random() < 0.5
+
+    def take(lo, hi):
+        cuts = [lead + k * m0 for k in range(nw + 1)]
+        first = rnd.choice([0, lead])
+        last = rnd.choice([T, cuts[-1]])
+        cut = [first] + ([rnd.choice(cuts[1:-1])] if nw >= 2 and rnd.random() < 0.5 else []) + [last]
+        return {'start': [{'$dt': iso(pts[i])} for i in cut[:-1]], 'end': [{'$dt': iso(pts[i])} for i in cut[1:]],
+                'values': [q8(rnd, lo, hi) * (cut[i + 1] - cut[i]) * float(tg.dt[0]) for i in range(len(cut) - 1)]}
+
+    mkt_levels = {'n1': [0, 0, 3, -3], 'n2': [0, 0, 3, -3]}
+    if atype in ('SimpleContract', 'Contract', 'MultiCommodityContract'):
+        lo, hi = -q8(rnd, 0.5, 4), q8(rnd, 0.5, 4)
+        if rnd.random() < 0.2:
+            lo = 0.0
+        args['min_cap'], args['max_cap'] = lo, hi
+        args['price'] = pkey('pX', -2, 4, [-3, 0, 2, 5, 9], [-8, 0, 6, 15, 30])
+        if two_var:
+            args['extra_costs'] = q8(rnd, 0.125, 1)
+        if atype in ('Contract', 'MultiCommodityContract') and rnd.random() < 0.6:
+            if rnd.random() < 0.6:
+                args['max_take'] = take(0.25, 1.0)
+            else:
+                args['min_take'] = take(-0.5, 0.25)
+        if atype == 'MultiCommodityContract':
+            nodes = ['n1', 'n2']
+            args['factors_commodities'] = [1.0, rnd.choice([1.0, 0.5, 2.0, -0.5])]
+    elif atype in ('Transport', 'ExtendedTransport'):
+        nodes = ['n1', 'n2']
+        if rnd.random() < 0.8:
+            args['min_cap'], args['max_cap'] = 0.0, q8(rnd, 0.5, 4)
+            mkt_levels = {'n1': [0, 0, 2], 'n2': [4, 8, 14]}         # mostly worth transporting, not always
+        else:
+            args['min_cap'], args['max_cap'] = -q8(rnd, 0.5, 4), 0.0
+            mkt_levels = {'n1': [2, 5, 8], 'n2': [0, 0, 2]}
+        args['efficiency'] = rnd.choice([1.0, 0.5, 0.875, 0.75])
+        args['costs_const'] = rnd.choice([0.0, 0.125, 0.5])
+        if rnd.random() < 0.9:
+            args['costs_time_series'] = pkey('pX', 0, 2, [0, 0, 1, 3], [0, 2, 6, 12])
+        if atype == 'ExtendedTransport' and rnd.random() < 0.6 and args['max_cap'] > 0:
+            args['max_take'] = take(0.25, 1.0)
+    elif atype == 'Storage':
+        if rnd.random() < 0.3:
+            nodes = ['n1', 'n2']
+        args['size'] = q8(rnd, 2, 12)
+        args['cap_in'] = q8(rnd, 0.5, 3)
+        args['cap_out'] = q8(rnd, 0.5, 3)
+        args['start_level'] = rnd.choice([0.0, 0.0, 1.0, args['size'] / 2])
+        args['end_level'] = rnd.choice([args['start_level'], args['start_level'], 0.0, min(1.0, args['size'])])
+        if two_var:
+            args['eff_in'] = rnd.choice([1.0, 0.875, 0.5])
+            args['cost_in'] = rnd.choice([0.0, 0.125])
+            args['cost_out'] = rnd.choice([0.125, 0.25])
+        if rnd.random() < 0.9:
+            args['price'] = pkey('pX', 0, 4, [0, 0, 2, 5], [0, 3, 8, 20])
+    focus = {'type': atype, 'name': 'X', 'nodes': nodes, 'args': args}
+    others = []
+    allnodes = ['n1', 'n2'] if len(nodes) == 2 or rnd.random() < 0.2 else ['n1']
+    for n in allnodes:
+        others.append({'type': 'SimpleContract', 'name': 'mkt_' + n, 'nodes': [n],
+                       'args': {'price': pkey('p_' + n, -2, 12, mkt_levels[n]), 'min_cap': -8.0, 'max_cap': 8.0,
+                                'extra_costs': rnd.choice([0.0, 0.125, 0.5])}})
+    if rnd.random() < 0.5:
+        prof = pkey('load', 0, 3, [0])
+        others.append({'type': 'SimpleContract', 'name': 'load', 'nodes': [rnd.choice(allnodes)],
+                       'args': {'min_cap': prof, 'max_cap': prof}})
+        prices['load'] = [-v for v in prices['load']]
+    if len(allnodes) == 2 and len(nodes) == 1:
+        others.append({'type': 'Transport', 'name': 'link', 'nodes': ['n1', 'n2'],
+                       'args': {'min_cap': 0.0, 'max_cap': 2.0, 'efficiency': 0.875}})
+    return {'grid': g, 'nodes': allnodes, 'prices': prices, 'focus': focus, 'opt': opt, 'others': others,
+            'kind': 'freq', 'oracle': True, 'aligned': True, 'uniform_dt': True, 'probe': None,
+            'window': {'where': where, 'lead': lead, 'coarse_steps': nw, 'minor_per_coarse': m0, 'tail': tail}}
+
+
+def gen_anchor_case(rnd, atype=None):
+    """periodic asset with an ANCHORED period ('W': weeks begin on Sunday) on a grid whose first day is drawn (0..6 days after the
+    anchor; 0 = on the anchor), fine steps 'd' / '12h' / '6h', two or three whole weeks plus the partial first one and sometimes a
+    partial last one, with or without a duration of two weeks; asset, parameters and markets as in `gen_case`.
+    The statement's positions are counted by the clock; the code counts those of the partial first period from the grid start
+    (finding F-13m, kind 'anchored_period_lead')."""
+    fine = rnd.choice(['d', 'd', '12h', '6h'])
+    per_day = int(round(pd.Timedelta(days=1) / td(fine)))
+    m = 7 * per_day
+    wd = rnd.randint(0, 6)
+    start = pd.Timestamp('2021-01-03') + wd * pd.Timedelta(days=1) + rnd.choice([0, 0, 0, 6, 12]) * pd.Timedelta(hours=1)
+    first = ((7 - wd) % 7) * per_day                                  # steps of the partial first week
+    weeks = rnd.randint(2, 2 if fine == '6h' else 3)
+    T = first + weeks * m + (rnd.randint(1, m - 1) if rnd.random() < 0.3 else 0)
+    opt = {'periodicity': 'W'}
+    if rnd.random() < 0.3:
+        opt['periodicity_duration'] = '2W'
+    force = {'fine': fine, 'opt': opt, 'T': T, 'start': iso(start), 'tz': rnd.choice([None, None, 'UTC', 'CET'])}
+    c = gen_case(rnd, oracle=True, kind='perdur' if 'periodicity_duration' in opt else 'per', atype=atype, dst=False, force=force)
+    c['probe'] = 'anchored_period'
+    c['anchor'] = {'days_after_anchor': wd, 'steps_first_week': first, 'steps_per_week': m}
+    return c
+
+
 def cases(seed, n):
     rnd = random.Random(seed * 104729 + 13)
     for i in range(n):
@@ -290,6 +454,20 @@ def cases(seed, n):
     for i in range(max(6, n // 10)):
         r1 = random.Random(rnd.getrandbits(48))
         yield 'pertype%d' % i, gen_case(r1, oracle=True, kind=r1.choice(['per', 'perdur']), atype=TYPES[i % len(TYPES)])
+    # coarse assets of every type whose (whole-coarse-step) window starts / ends strictly inside the horizon, with a strongly
+    # varying price / cost series: what the asset pays in its last (first) coarse interval must not depend on the steps outside
+    for i in range(max(36, n // 5)):
+        yield 'window%d' % i, gen_window_case(random.Random(rnd.getrandbits(48)), atype=TYPES[i % len(TYPES)])
+    # grids with ONE step and with two steps for every periodic asset type: the asset must build (fixed finding F-13l: a single
+    # step raised AttributeError without a duration) and equal the fine problem (one step: nothing to merge)
+    # (blocks of all types: one step / two steps, without / with a duration)
+    for i in range(max(24, n // 13)):
+        b = i // len(TYPES)
+        yield 'tiny%d' % i, gen_case(random.Random(rnd.getrandbits(48)), oracle=True, kind='per' if (b // 2) % 2 == 0 else 'perdur',
+                                     atype=TYPES[i % len(TYPES)], dst=False, steps=1 + b % 2)
+    # probe: anchored period (weeks) on grids that start on any weekday (finding F-13m)
+    for i in range(max(12, n // 16)):
+        yield 'anchor%d' % i, gen_anchor_case(random.Random(rnd.getrandbits(48)), atype=TYPES[i % len(TYPES)])
 
 
 # ------------------------------------------------------------------ running the implementation with recorders
@@ -321,7 +499,7 @@ class Recorder:
             entry['pts'] = [instant(p, tz) for p in tp]
             entry['idx'] = [int(i) for i in timegrid.I]
             try:
-                entry['bounds'] = boundaries(tp, tz, freq_period, freq_duration)
+                entry['bounds'] = boundaries(tp, tz, freq_period, freq_duration, end=timegrid.end)
             except Exception as e:
                 entry['bounds'] = {'err': err_class(e)}
             real_merge = pd.merge
@@ -369,20 +547,29 @@ class Recorder:
         return False
 
 
-def boundaries(tp, tz, freq_period, freq_duration):
-    """lines 98-104 of optimization.py: the raw boundary instants (before the early start is dropped)"""
+def raw_boundaries(tp, tz, freq_period, freq_duration, end=None):
+    """lines 98-104 of optimization.py: the raw boundaries (before the early start is dropped), as pandas gives them.
+    Without a duration the code takes [tp[0], end + (end - tp[0])] with the END OF THE GRID (it lies after the first point
+    also when the grid has a single step; the former tp[-1] + (tp[-1] - tp[0]) did not: fixed finding F-13l)."""
     try:
         periods = pd.date_range(tp[0] - pd.Timedelta(1, freq_period), tp[-1] + pd.Timedelta(1, freq_period), freq=freq_period, tz=tz)
     except Exception:
         periods = pd.date_range(tp[0] - pd.Timedelta(freq_period), tp[-1] + pd.Timedelta(freq_period), freq=freq_period, tz=tz)
     if freq_duration is None:
-        durations = None
+        durations = None   # the model applies the code's rule itself (`wholeDuration`: [tp[0], end + (end - tp[0])])
     else:
         try:
             durations = pd.date_range(tp[0] - pd.Timedelta(1, freq_duration), tp[-1] + pd.Timedelta(1, freq_duration), freq=freq_duration, tz=tz)
         except Exception:
             durations = pd.date_range(tp[0] - pd.Timedelta(freq_duration), tp[-1] + pd.Timedelta(freq_duration), freq=freq_duration, tz=tz)
-    return {'periods': [instant(p, tz) for p in periods], 'durations': None if durations is None else [instant(p, tz) for p in durations]}
+    return periods, durations
+
+
+def boundaries(tp, tz, freq_period, freq_duration, end=None):
+    """the same as instants for the model (`durations` None: whole horizon by the model's own rule, only when no grid end is given)"""
+    periods, durations = raw_boundaries(tp, tz, freq_period, freq_duration, end)
+    return {'periods': [instant(p, tz) for p in periods], 'durations': None if durations is None else [instant(p, tz) for p in durations],
+            'end': None if end is None else instant(end, tz)}
 
 
 def build_one(case, opt):
@@ -435,7 +622,7 @@ def request(case, impl_result):
         if 'err' in e['bounds']:
             continue
         reqs.append(('lab%d' % i, {'op': 'step_labels', 'pts': e['pts'], 'periods': e['bounds']['periods'],
-                                   'durations': e['bounds']['durations'], 'raw': True}))
+                                   'durations': e['bounds']['durations'], 'end': e['bounds']['end'], 'raw': True}))
     return reqs
 
 
@@ -491,7 +678,7 @@ def compare(case, impl_result, drv):
             if 'err' not in e['after']:
                 dis.append('periodic call %d: boundaries raise %s in the harness but the code went through' % (i, e['bounds']['err']))
             continue
-        lab = drv.ok({'op': 'step_labels', 'pts': e['pts'], 'periods': e['bounds']['periods'], 'durations': e['bounds']['durations'], 'raw': True})
+        lab = drv.ok({'op': 'step_labels', 'pts': e['pts'], 'periods': e['bounds']['periods'], 'durations': e['bounds']['durations'], 'end': e['bounds']['end'], 'raw': True})
         if not lab['equal_spacing']:
             if 'err' not in e['after']:
                 dis.append('periodic call %d: periods of unequal length accepted by the code' % i)
@@ -566,21 +753,32 @@ def active_steps(tg, asset):
     return [int(i) for i in np.where((tp >= s) & (tp < e))[0]]
 
 
+def period_lead(tg, freq_period):
+    """number of grid steps that fit between the begin (anchor) of the period the first grid step lies in and the first grid
+    step: 0 when the grid starts on a period boundary - always so for plain lengths ('d', '4h': boundaries are counted from the
+    first grid point), not for anchored frequencies ('W': Sundays)"""
+    tp = tg.timepoints
+    periods, _ = raw_boundaries(tp, tg.tz, freq_period, None)
+    before = [p for p in periods if p <= tp[0]]
+    if not before:
+        return 0
+    return sum(1 for x in pd.date_range(max(before), tp[0], freq=tg.freq, tz=tg.tz) if x < tp[0])
+
+
 def step_labels_py(tg, freq_period, freq_duration):
-    """labels per step from the harness' own reading of the documented behaviour: position since the last
-    period boundary, duration counter (used by the oracle only; the model's `stepLabels` is compared
-    with the code in `compare`)"""
-    b = boundaries(tg.timepoints, tg.tz, freq_period, freq_duration)
-    pts = [instant(p, tg.tz) for p in tg.timepoints]
-    per = b['periods']
-    dur = b['durations'] if b['durations'] is not None else [pts[0], pts[-1] + (pts[-1] - pts[0])]
+    """labels per step from the harness' own reading of the statement ("the same position of every period within a duration"):
+    (duration counter, position in the period), the position counted BY THE CLOCK = number of grid steps since the begin of the
+    period, also for a first period that began before the grid (used by the oracle only; the model's `stepLabels` is compared
+    with the code in `compare` - the code counts the positions of a partial first period from the grid start, finding F-13m)"""
+    tp = tg.timepoints
+    periods, durations = raw_boundaries(tp, tg.tz, freq_period, freq_duration, end=tg.end)
     labels = []
     last_p, cnt = None, 0
-    for t in pts:
-        d = sum(1 for x in dur if x <= t)
-        p = sum(1 for x in per if x <= t)
+    for t in tp:
+        d = sum(1 for x in durations if x <= t)
+        p = sum(1 for x in periods if x <= t)
         if p != last_p:
-            cnt = 0
+            cnt = period_lead(tg, freq_period) if last_p is None else 0
             last_p = p
         labels.append((d, cnt))
         cnt += 1
@@ -677,6 +875,7 @@ def reference_portfolio(case):
     if 'periodicity' in opt:
         labels = step_labels_py(tg, opt['periodicity'], opt.get('periodicity_duration'))
         info['labels'] = labels
+        info['period_lead'] = period_lead(tg, opt['periodicity'])
 
     def modify(op):
         m = op.mapping
@@ -751,6 +950,9 @@ def kind_facts(case, info):
         return 'coarse_remainder'
     if 'freq' in opt and not case.get('uniform_dt', True) and ('max_take' in case['focus']['args'] or 'min_take' in case['focus']['args']):
         return 'coarse_take_first_minor'
+    if 'periodicity' in opt and info.get('period_lead', 0) > 0:
+        # anchored period ('W'), grid not starting on the anchor: the first period is partial and began before the grid
+        return 'anchored_period_lead'
     a_ = case['focus']['args']
     if 'freq' in opt and a_.get('wacc'):
         return 'coarse_wacc'
@@ -821,8 +1023,15 @@ def oracle(case, impl_result=None):
                     break
                 seen.setdefault(lab, t)
             if bad:
-                viol.append({'oracle': 'periodic_repeats', 'detail': 'column %s: dispatch %.6g at step %d vs %.6g at step %d, both (duration, position) = %s' % (
-                    col, v[bad[0]], bad[0], v[bad[1]], bad[1], bad[2]), 'facts': facts})
+                f_ = dict(facts)
+                if kind == 'anchored_period_lead':
+                    # steps of the partial first period: up to the first step with position 0
+                    n_lead = next((t for t, lab in enumerate(labels) if lab[1] == 0), len(labels))
+                    f_['in_first_period'] = bool(bad[0] < n_lead)
+                    if not f_['in_first_period']:
+                        f_['kind'] = 'other'
+                viol.append({'oracle': 'periodic_repeats', 'detail': 'column %s: dispatch %.6g at step %d vs %.6g at step %d, both (duration, position by the clock) = %s' % (
+                    col, v[bad[0]], bad[0], v[bad[1]], bad[1], bad[2]), 'facts': f_})
                 break
     if rout is None:
         viol.append({'oracle': 'value_vs_fine_with_equalities', 'detail': 'reference problem (fine + equalities) %s while the real problem has value %.8g' % (rres, res.value),
@@ -834,6 +1043,40 @@ def oracle(case, impl_result=None):
                          'facts': facts})
         feats.append('value-compared')
     return viol, feats
+
+
+def oracle_builds(case, with_err):
+    """the set-up of the focus asset with its options RAISED.  A violation of C13 ("this works for every asset type that accepts
+    the options") when the case is one the statement covers - periodicity without a coarse frequency, period boundaries of equal
+    length (the documented requirement; unequal ones are rejected on purpose) - and the fine problem with the equalities added
+    explicitly exists and is solved.  Everything else is left unjudged (feature only)."""
+    opt = case['opt']
+    if 'periodicity' not in opt or 'freq' in opt:
+        return [], ['setup-error-unjudged:' + with_err.get('err', '?')]
+    try:
+        tg = scen.make_grid(case['grid'])
+        tp = tg.timepoints
+        per, _ = raw_boundaries(tp, tg.tz, opt['periodicity'], opt.get('periodicity_duration'), end=tg.end)
+        per = list(per)
+        if len(per) > 1 and per[1] <= tp[0]:
+            per = per[1:]
+        d = [b - a for a, b in zip(per[:-1], per[1:])]
+        if not all(x == d[0] for x in d):
+            return [], ['rejected:unequal-periods']
+    except Exception as e:
+        return [], ['rejected:boundaries-' + err_class(e)]
+    try:
+        rportf, rtg, rprices, info = reference_portfolio(case)
+        rop, rres, rout = solve_portfolio(rportf, rtg, rprices)
+    except Exception as e:
+        return [], ['ref-setup-error:' + err_class(e) + ':' + str(e)[:60]]
+    if rout is None:
+        return [], ['ref-unsolved:' + str(rres)]
+    facts = {'kind': kind_facts(case, info), 'asset_type': case['focus']['type'], 'opt': sorted(opt), 'steps': int(tg.T),
+             'error': with_err.get('err')}
+    return [{'oracle': 'periodic_builds', 'facts': facts,
+             'detail': 'set-up of the periodic %s (%s) on a grid of %d step(s) raises %s: %s; the fine problem with the equalities exists and has value %.8g' % (
+                 case['focus']['type'], ', '.join('%s=%s' % kv for kv in sorted(opt.items())), tg.T, with_err.get('err'), with_err.get('msg', ''), rres.value)}], ['builds-judged']
 
 
 # ------------------------------------------------------------------ synthetic (partly malformed) inputs, methods called directly
